@@ -39,7 +39,7 @@ fn or3(a: V3, b: V3) -> V3 {
     not3(and3(not3(a), not3(b)))
 }
 
-const NFORMS: usize = 15;
+const NFORMS: usize = 16;
 const COLS: [&str; 4] = ["a", "b", "c", "d"];
 
 #[derive(Clone, Debug)]
@@ -99,6 +99,8 @@ fn leaf_val(form: usize, x: Option<bool>) -> V3 {
             }
         }
         13 => not3(t),
+        // a NULL boolean literal
+        15 => N,
         _ => unreachable!(),
     }
 }
@@ -118,6 +120,7 @@ fn leaf_expr(atom: usize, form: usize) -> SimpleExpr {
         9 => c().eq(1).or(c().eq(0)),
         10 => c().eq(1).and(c().eq(1)),
         11 => SimpleExpr::Constant(false.into()),
+        15 => SimpleExpr::Value(Value::Bool(None)),
         // OR whose right operand is not itself a binary expression
         14 => c().eq(1).or(SimpleExpr::from(c())),
         12 => Expr::cust(format!("\"{0}\" = 1 OR \"{0}\" = 0", COLS[atom])),
@@ -297,6 +300,7 @@ fn binds(values: &Values) -> Option<Vec<SqlVal>> {
             Value::Int(Some(i)) => Some(SqlVal::Int(*i as i64)),
             Value::BigInt(Some(i)) => Some(SqlVal::Int(*i)),
             Value::Bool(Some(b)) => Some(SqlVal::Int(*b as i64)),
+            Value::Bool(None) | Value::Int(None) | Value::BigInt(None) => Some(SqlVal::Null),
             _ => None,
         })
         .collect()
